@@ -1063,9 +1063,13 @@ def _sign_zone_nsec(
         )
         node = txn.get_node(name)
         if node and next_secure:
-            types = (
-                set([rdataset.rdtype for rdataset in node.rdatasets]) | mandatory_types
-            )
+            types = set([rdataset.rdtype for rdataset in node.rdatasets])
+            if dns.rdatatype.NS in types and name != zone.origin:
+                # At a delegation point the zone is authoritative for the NS
+                # and DS RRsets only (RFC 4035 section 2.3); the bits of other
+                # RRsets at that name (e.g. address glue) must be clear.
+                types &= {dns.rdatatype.RdataType.NS, dns.rdatatype.RdataType.DS}
+            types |= mandatory_types
             windows = Bitmap.from_rdtypes(list(types))
             rrset = dns.rrset.from_rdata(
                 name,
